@@ -47,7 +47,7 @@ def build_criterion(c):
 
 @st.composite
 def grad_case(draw):
-    sc = draw(scenario(models=("linear", "mlp_tanh", "recurrent", "recurrent"), dtype="float64", min_steps=3, max_steps=8,
+    sc = draw(scenario(models=("linear", "mlp_tanh", "recurrent", "recurrent", "linear_sigmoid", "mlp_tanh_out"), dtype="float64", min_steps=3, max_steps=8,
                        max_paths=32, hedge_kinds=("default", "ul", "ul+listed"), extra_features=False))
     sc["n_paths"] = max(4, sc["n_paths"])
     if sc["ul"]["type"] == "VasicekRate":
